@@ -8,6 +8,11 @@ From CF Require Import C12.Proofs_flash.
 From CF Require Import C12.Proofs.
 From CF Require Import C12.Session.
 From CF Require Import C12.Proofs_session.
+From CF Require Import C12.Plan.
+From CF Require Import C12.Proofs_sequence.
+From CF Require Import C12.Proofs_read.
+From CF Require Import C12.Proofs_plan.
+From CF Require Import C12.Refute.
 Open Scope Z_scope.
 
 (* target 0xFF: 4-byte pages, 2 buffer pages, 6 flash pages, start page 1; a 10-byte image (3 pages:
@@ -90,4 +95,44 @@ Proof. vm_compute. reflexivity. Qed.
 Example ex_update_info :
   fst (fst (update_info 254 255 [None; Some (255, [255; 16]); Some (info_packet 254 1024 1 232 88 (repeat 0 12) [16])])) =
   UTrue (mkInfo 1024 1 232 88 (repeat 0 12) (Some 16) None) false.
+Proof. vm_compute. reflexivity. Qed.
+
+(* ---- growth round ---- *)
+(* A zip with the nRF51 bootloader+softdevice (2 pages), an nRF51 firmware and an STM32 firmware; the device runs
+   s110 (start page 88) and, after the reboot into the new bootloader, reports start page 108. *)
+Definition exStm : target := mkT 255 4 2 6 (repeat 0 8) (repeat 238 24) false.
+(* the real plan: erase page 88, soft device at pages 110..111, reboot, nRF51 firmware at page 108, STM32 at page 1 *)
+Example ex_plan_calls :
+  map (fun c => (l_tid c, eff_start (l_sp c) (l_override c))) (calls_of (flash_plan 2 exK0 exK1 exArts [])) =
+  [(254, 88); (254, 110); (254, 108); (255, 1)].
+Proof. vm_compute. reflexivity. Qed.
+
+Example ex_plan_done :
+  let '(o, _, tr, cs, rb) := run_plan (flash_plan 2 exK0 exK1 exArts []) [] in
+  o = SDone /\ length cs = 4%nat /\ rb = true /\
+  zslice (t_flash (deliver exNrf tr)) (108 * 4) 5 = [9;9;9;9;9] /\
+  zslice (t_flash (deliver exNrf tr)) (88 * 4) 4 = [255;255;255;255].
+Proof. vm_compute. repeat split; reflexivity. Qed.
+
+(* naming only the STM32 firmware changes nothing: same calls (see C12_target_list_ignored_observation);
+   naming only a deck target skips the firmware phase (the soft-device prerequisite step still runs) *)
+Example ex_plan_selected :
+  map (fun c => (l_tid c, eff_start (l_sp c) (l_override c)))
+      (calls_of (flash_plan 2 exK0 exK1 exArts [mkSel 2 255 1])) = [(254, 88); (254, 110); (254, 108); (255, 1)] /\
+  map (fun c => (l_tid c, eff_start (l_sp c) (l_override c)))
+      (calls_of (flash_plan 2 exK0 exK1 exArts [mkSel 3 1000 1])) = [(254, 88); (254, 110)].
+Proof. vm_compute. split; reflexivity. Qed.
+
+(* read_flash of the last page of a 3-page flash with 26-byte pages (two chunks, the second clipped by the end of the
+   flash), first request lost, a stale reply for offset 0 arriving in place of the second chunk once *)
+Definition exR : target := mkT 255 26 1 3 (repeat 0 26) (map (fun a => a mod 251) (zrange 0 78)) false.
+Example ex_read :
+  fst (fst (read_flash exR 255 26 2 [RLost; RGood; RWrong (device_read exR 2 0); RGood])) =
+  RBuf (map (fun a => a mod 251) (zrange 52 26)).
+Proof. vm_compute. reflexivity. Qed.
+
+Example ex_read_honest : rf_honest 254 [RLost; RWrong (255, [255; 28; 0; 0; 0; 0; 1]); RWrong (0, [254; 28; 0; 0; 0; 0])].
+Proof. repeat constructor. Qed.
+
+Example ex_read_six_lost : fst (fst (read_flash exR 255 26 0 (repeat RLost 6))) = RNone.
 Proof. vm_compute. reflexivity. Qed.
